@@ -162,7 +162,9 @@ CHECKS = {
         "equal-multiplicity letters disjoint. Certificates are recomputed from the tables on every run. The Lean parser model is tied to the Rust parser by exhaustive correspondence on all table strings."),
   design_ref="DESIGN.md §3 C16",
   note=("Trusted: Lean kernel (decide +kernel, GMP-accelerated Nat), the tokenising translator (validated against the running code's rows), the certificate search (untrusted: certificates are checked in the kernel). "
-        "Partial: inequivalence of different types inside one arithmetic class is not proved (types_inequivalent_across_classes_partial)."),
+        "Clause (g) is proved in full (Props/C16Types.lean, types_inequivalent: two table settings with different ITA numbers are never conjugate under a proper affine map with integer linear part of determinant +1 and rational origin shift; "
+        "across arithmetic classes by GL3(Z)-non-conjugacy of the point groups, inside a class by a conjugacy invariant - numbers of solutions of word equations in G/mT, rotation subsets, orientation-sensitive determinants for the 11 "
+        "enantiomorphic pairs - proved invariant once (count_invariant) and kernel-decided per type from regenerated certificates). Real-valued origin shifts are not quantified over."),
   technique="Lean 4 kernel-decided table theorems over regenerated tables with recomputed certificates + exhaustive parser correspondence",
   engine="lean-proofs+translator+correspondence"),
  "C17": dict(
@@ -173,8 +175,8 @@ CHECKS = {
         "'Identified as itself': the tabulated primitive operations of every UNI number, own setting and re-based settings, go through the real MagneticSpaceGroup::new and must come back with their own UNI number "
         "(2201 rows per quick run, all x 3 in thorough; the Lean model of that function is the s5m stage of C12)."),
   design_ref="DESIGN.md §3 C17",
-  note=("Trusted as C16. Partial: 'identified as itself and no other' is proved only as pairwise difference of the tabulated primitive operation sets inside a range, not as inequivalence under the origin shifts / normalizer "
-        "elements the identification tries (mag_range_distinct_partial); the pipeline-level statement is C12."),
+  note=("Trusted as C16. Pairwise inequivalence is proved in full (Props/C17Types.lean, mag_range_inequivalent: two different UNI entries of one range are never conjugate under a proper affine map preserving the time-reversal flags; "
+        "invariant vectors kernel-decided for all 1651 entries; entries of different ranges have different family numbers). The pipeline-level statement is C12."),
   technique="Lean 4 kernel-decided table theorems over regenerated magnetic tables + exhaustive parser correspondence",
   engine="lean-proofs+translator+correspondence"),
 
